@@ -1,10 +1,12 @@
 /-
-  C02 — the two places where Mathlib is used:
+  C02 — the places where Mathlib is used:
   * `conn_iff_reflTransGen`: the Spec's inductive `Conn` *is* the reflexive-transitive closure
     (Mathlib's `Relation.ReflTransGen`) of 8-adjacency restricted to flood pixels;
-  * the ℝ interpretation of the comparison interface `Cmp` and its order law (`CmpLaws ℝ`).
+  * the ℝ interpretation of the comparison interface `Cmp` and its order law (`CmpLaws ℝ`);
+  * the pixel list of a reported island has no duplicates (`List.Nodup` lemmas).
 -/
 import Mathlib.Logic.Relation
+import Mathlib.Data.List.Nodup
 import Aegean.Proofs.Real
 import Aegean.Proofs.C02
 
@@ -25,6 +27,32 @@ theorem conn_iff_reflTransGen (g : Grid) (p q : Px) :
     induction h with
     | refl => exact Conn.refl p hp
     | tail _ hstep ih => exact Conn.step ih hstep.1 hstep.2.2
+
+theorem boxPx_nodup (b : Box) : (boxPx b).Nodup := by
+  unfold boxPx
+  rw [List.nodup_flatMap]
+  refine ⟨fun dr _ => ?_, ?_⟩
+  · refine List.Nodup.map ?_ List.nodup_range
+    intro x y h
+    simp only [Prod.mk.injEq] at h
+    omega
+  · refine List.Pairwise.imp ?_ (List.nodup_range (n := b.rhi - b.rlo))
+    intro x y hxy
+    simp only [Function.onFun, List.disjoint_left, List.mem_map, List.mem_range]
+    rintro p ⟨c1, _, rfl⟩ ⟨c2, _, h⟩
+    simp only [Prod.mk.injEq] at h
+    omega
+
+theorem islandOf_pixels_nodup {g : Grid} {lab : Px → Nat} {inside : Option (Px → Bool)} {i : Nat}
+    {I : Island} (h : islandOf g lab inside i = some I) : I.pixels.Nodup := by
+  simp only [islandOf, Option.bind_eq_some_iff] at h
+  obtain ⟨fb, _, h⟩ := h
+  simp only [islandIn] at h
+  split at h
+  · simp only [Option.map_eq_some_iff] at h
+    obtain ⟨b, _, rfl⟩ := h
+    exact (boxPx_nodup fb).filter _
+  · cases h
 
 noncomputable instance instCmpReal : Cmp ℝ where
   le a b := decide (a ≤ b)
